@@ -339,7 +339,7 @@ func MergeHeaders(src []*Header) (h *Header, reflinks [][]*Reference, err error)
 	}
 	// A reference linked for an earlier source may have been
 	// replaced, and so released, by a later one.
-	for _, links := range reflinks[1:] {
+	for _, links := range reflinks {
 		for id, r := range links {
 			if r.owner != h {
 				links[id] = h.refs[h.seenRefs[r.name]]
